@@ -65,7 +65,13 @@ ApplyPadding(s, e) ==
       exp |-> [why |-> IF ~shape THEN "shape" ELSE IF bad # {} THEN "padding_cell_not_neg_inf_or_wrong_score" ELSE "max_is_not_the_best_valid_score",
                origin |-> e.origin]]
 
-Apply(s, e) == IF e.ev = "reduce" THEN ApplyStriped(s, e) ELSE IF e.ev = "padding" THEN ApplyPadding(s, e) ELSE ApplyLin(s, e)
+\* tables TLC cannot hold (more than 65 536 rows): the recorder's own naive maximum (`want`, trusted) against the reported
+\* maximum and the cell the arg-maximum designates; a kernel may refuse such a table (its documented size limit)
+ApplyBigTable(s, e) ==
+  [ok |-> e.ret = "refused" \/ (e.ret = "ok" /\ e.max = <<e.want>> /\ e.cell = <<e.want>>), st |-> s,
+   exp |-> [why |-> "maximum_or_argmax_of_a_table_beyond_65536_rows", want |-> e.want]]
+
+Apply(s, e) == IF e.ev = "reduce_big" THEN ApplyBigTable(s, e) ELSE IF e.ev = "reduce" THEN ApplyStriped(s, e) ELSE IF e.ev = "padding" THEN ApplyPadding(s, e) ELSE ApplyLin(s, e)
 
 TK == INSTANCE TraceKit
 Spec == TK!TKSpec
